@@ -173,16 +173,18 @@ def x21_debug_assert(s):
 
 
 # ---------------------------------------------------------------- X16 loops over heapless fields
-_loop_ctr = [0]
+_ctr = {}
+# field name -> element type of heapless::Vec fields, filled from the extracted struct texts
+HVEC_ELEM = {}
 
 
-def _fresh():
-    _loop_ctr[0] += 1
-    return _loop_ctr[0]
+def _fresh(kind='i'):
+    _ctr[kind] = _ctr.get(kind, 0) + 1
+    return _ctr[kind]
 
 
 def reset_counters():
-    _loop_ctr[0] = 0
+    _ctr.clear()
 
 
 def x16_hvec_loops(s):
@@ -286,15 +288,26 @@ def x17_iter_search(s):
                % (k, k, k, recv, params, recv, k, k, k, body, k, k))
         s = s[:start] + new + s[e + mm.end():]
     pat = re.compile(r'\.retain\(\s*(?=\|)')
-    pos = 0
     while True:
-        m = pat.search(s, pos)
+        m = pat.search(s)
         if not m:
             break
         c, e = _closure_plus(s, m.end(), 'bool')
         hits.append('.retain(..)')
-        s = s[:m.end()] + c + s[e:]
-        pos = m.end() + len(c)
+        k = _fresh('f')
+        st = m.start()
+        while st > 0 and s[st - 1] not in ';{}':
+            st -= 1
+        ws = len(s[st:]) - len(s[st:].lstrip())
+        indent = s[st:st + ws]
+        # the closure is bound to a name first (same evaluation order: it captures nothing mutable);
+        # its parameter type is read off the struct definition of the receiver field
+        fm = re.search(r'\.(\w+)\s*$', s[:m.start()])
+        ety = HVEC_ELEM.get(fm.group(1)) if fm else None
+        if ety is None:
+            raise ValueError('X17: retain on unknown field')
+        c = re.sub(r'^\|(\w+)\|', r'|\1: &%s|' % ety, c)
+        s = s[:st] + indent + "let __f%d = %s;" % (k, c) + s[st:m.end()] + "__f%d" % k + s[e:]
     pat = re.compile(r'(self\s*(?:\.\s*\w+\s*)+?)\.\s*iter_mut\(\)\s*\.find\(\s*(?=\|)')
     while True:
         m = pat.search(s)
@@ -303,8 +316,15 @@ def x17_iter_search(s):
         c, e = _closure_plus(s, m.end(), 'bool')
         recv = ''.join(m.group(1).split())
         hits.append('.iter_mut().find(..)')
-        s = (s[:m.start()]
-             + "(match %s.position_of(%s) { Some(__p) => Some(%s.at_mut(__p)), None => None })" % (recv, c, recv)
+        k = _fresh('p')
+        # hoist the (pure) search in front of the enclosing statement so that the index is nameable
+        st = m.start()
+        while st > 0 and s[st - 1] not in ';{}':
+            st -= 1
+        ws = len(s[st:]) - len(s[st:].lstrip())
+        indent = s[st:st + ws]
+        s = (s[:st] + indent + "let __p%d = %s.position_of(%s);" % (k, recv, c) + s[st:m.start()]
+             + "(match __p%d { Some(__q) => Some(%s.at_mut(__q)), None => None })" % (k, recv)
              + s[e + 1:])
     return s, hits
 
